@@ -1,7 +1,9 @@
 package codec
 
 import (
+	"bytes"
 	"fmt"
+	"io"
 	"reflect"
 	"testing"
 	"time"
@@ -110,7 +112,7 @@ func TestC09(t *testing.T) {
 	rep := vh.NewReport("C09")
 	defer rep.Finish(t)
 	rep.Rule("write histories (600..5000 items, >= 2 sequence wraps) mixing dialect message types, decoded and raw, with occasional refused items, over configurations " +
-		"version x system id {1,2,127,255} x component id {0,1,200,255} x key x link id, through streamwriter.Writer, frame.Writer.WriteMessage and a Node with 1..6 custom channels " +
+		"version x system id {1,2,127,255} x component id {0,1,200,255} x key x link id, through streamwriter.Writer, frame.Writer.WriteMessage, frame.ReadWriter.WriteMessage and a Node with 1..6 custom channels " +
 		"(WriteMessageAll/To/Except + heartbeats + stream requests on the same per-link counter); every emitted frame parsed by the reference: identity, version, flags, checksum, v1 base size, " +
 		"sequence automaton (first 0, then +1 mod 256; a step of 1..1+r only across r refused writes). Initialization refusals enumerated. distinct = (configuration, api) links")
 	rep.Assume("a sequence number consumed by a refused write is tolerated (the statement speaks of accepted writes); counted in seq_numbers_consumed_by_refused_writes")
@@ -216,7 +218,7 @@ func TestC09(t *testing.T) {
 		nItems := 600 + r.Intn(vh.Pick(400, 4400))
 
 		// streamwriter.Writer and deprecated frame.Writer.WriteMessage
-		for _, api := range []string{"streamwriter", "framewriter"} {
+		for _, api := range []string{"streamwriter", "framewriter", "readwriter"} {
 			rw := &recWriter{}
 			var write func(m message.Message) error
 			if api == "streamwriter" {
@@ -228,7 +230,7 @@ func TestC09(t *testing.T) {
 					continue
 				}
 				write = sw.Write
-			} else {
+			} else if api == "framewriter" {
 				fw := &frame.Writer{ByteWriter: rw, DialectRW: genv.drw, OutVersion: frame.WriterOutVersion(conf.version), OutSystemID: conf.sys,
 					OutComponentID: conf.comp, OutKey: key, OutSignatureLinkID: conf.link}
 				if err := fw.Initialize(); err != nil {
@@ -236,6 +238,18 @@ func TestC09(t *testing.T) {
 					continue
 				}
 				write = fw.WriteMessage
+			} else {
+				// the deprecated message writer of frame.ReadWriter
+				frw := &frame.ReadWriter{ByteReadWriter: struct {
+					io.Reader
+					io.Writer
+				}{bytes.NewReader(nil), rw}, DialectRW: genv.drw, OutVersion: frame.WriterOutVersion(conf.version), OutSystemID: conf.sys,
+					OutComponentID: conf.comp, OutKey: key, OutSignatureLinkID: conf.link}
+				if err := frw.Initialize(); err != nil {
+					rep.Violation("api=readwriter what=init:valid", "a valid configuration was refused: "+err.Error(), conf.String())
+					continue
+				}
+				write = frw.WriteMessage
 			}
 			var emitted []c09emitted
 			refused := 0
